@@ -171,6 +171,18 @@ def _workload(ctx, R, d, kinds, reps, n_create, n_var):
                 if gt is not None:
                     genos.append(gt)
                     ctx.attempt("map", rname, kind, d, lambda: rep.genotype_to_phenotype(gt), src)
+            if genos:
+                # boundary genotypes: every codon 0 / the largest codon (legal genotypes, mutation can produce them)
+                import copy as _copy
+                import sys as _sys
+                for codon in (0, _sys.maxsize):
+                    bg = _copy.deepcopy(genos[0])
+                    if isinstance(bg.dna, dict):
+                        for kk in bg.dna:
+                            bg.dna[kk] = [codon] * len(bg.dna[kk])
+                    else:
+                        bg.dna = [codon] * len(bg.dna)
+                    ctx.attempt("map-boundary", rname, kind, d, lambda: rep.genotype_to_phenotype(bg), src)
             for i in range(n_var):
                 if not genos:
                     break
@@ -294,6 +306,15 @@ def run_grammar(spec, prop, R, tier, batch, stats):
                     pass
             depths = [mind - 1, mind, mind + 1, mind + 2, mind + 4] if quick else \
                 [mind - 1, mind, mind + 1, mind + 2, mind + 3, mind + 4]
+            depths = depths + [mind]        # ... and the minimum once more, after everything else has happened on this Grammar object
+            if spec["id"] == "chain":
+                # very large limits: only whether creation completes is recorded (programs a thousand levels deep are not projected)
+                for big in (900, 1500):
+                    for kind in ("full", "pigrow"):
+                        src = RecordingSource(NativeRandomSource(R.randint(0, 10 ** 6)))
+                        dec = mk_decider(ctx, kind, big, src)
+                        rep = TreeBasedRepresentation(ctx.g, dec)
+                        ctx.attempt("create", "tree", kind, big, lambda: rep.create_genotype(src), src, project=False)
             for d in depths:
                 if d < 0:
                     continue
@@ -418,7 +439,9 @@ def main():
         n *= 4 if a.prop == "C03" else 12      # C03 runs every grammar at seven limits: its traces are the largest
     specs += GR.family(R, n, FEATS_ALL)
     if a.prop == "C03":
-        specs += GR.C03_EXTRA
+        specs += GR.C03_EXTRA + [GR.CHAIN]
+    if a.prop == "C10":
+        specs += GR.C10_EXTRA
     jobs = [("grammar", spec) for spec in specs]
     if a.prop in ("C01", "C02", "C11"):
         jobs += [("grammar", spec) for spec in GR.POSTPONED]
